@@ -41,6 +41,10 @@ pub struct Profile {
     pub mismatch: bool,
     /// structural ops are preferred over mutations
     pub struct_bias: usize,
+    /// probability (in 1/8) that a server op is a relationship op
+    pub rel_bias: usize,
+    /// sample acknowledgement timeouts shorter than typical round trips
+    pub short_timeouts: bool,
 }
 
 impl Profile {
@@ -70,6 +74,8 @@ impl Profile {
             blob_boundary: false,
             mismatch: false,
             struct_bias: 0,
+            rel_bias: 0,
+            short_timeouts: false,
         }
     }
 
@@ -108,6 +114,7 @@ impl Profile {
             }
             "C02" => {
                 p.name = "C02-schedule";
+                p.blob_boundary = true;
                 p.w_net = 8;
                 p.w_hold = 2;
                 p.w_cframe = 5;
@@ -167,11 +174,13 @@ impl Profile {
                 p.name = "C10-sizes";
                 p.blob_boundary = true;
                 p.rel = Some(true);
+                p.rel_bias = 2;
                 p.w_conn = 0;
                 p.w_net = 6;
             }
             "C11" => {
                 p.name = "C11-acks";
+                p.short_timeouts = true;
                 p.w_junk = 2;
                 p.w_net = 7;
                 p.w_conn = 0;
@@ -266,6 +275,10 @@ pub struct Cl {
     pub stamps: BTreeMap<(&'static str, u32), u32>,
     pub pending_disconnect: bool,
     pub first_update_checked: bool,
+    /// authorized at a moment when the server already replicated entities (late joiner)
+    pub joined_late: bool,
+    /// per mutate tick: update ticks the delivered messages of that tick wait for
+    pub delivered_reqs: BTreeMap<u32, Vec<u32>>,
 }
 
 pub struct Sim {
@@ -282,6 +295,8 @@ pub struct Sim {
 
     pub ents: Vec<Entity>,
     pub vis_rec: BTreeMap<(usize, Entity), bool>,
+    /// (client, entity) pairs that ever had an explicit setting in this session (survives despawn)
+    pub ever_explicit: BTreeSet<(usize, Entity)>,
     /// (client, entity) pairs that were hidden when the entity died; their secrets stay secret
     pub dead_hidden: BTreeSet<(usize, Entity)>,
     pub secrets: BTreeMap<Entity, Vec<[u8; 8]>>,
@@ -348,7 +363,8 @@ impl Sim {
         let nclients = 1 + r.below(3);
         let split = r.below(3) == 0;
         let events = prof.events.unwrap_or(r.below(2) == 0);
-        Cfg { vis, pol, auth, track, rel, nclients, split, events }
+        let timeout_ms = if prof.short_timeouts && r.below(2) == 0 { [30u64, 50, 80][r.below(3)] } else { 200 };
+        Cfg { vis, pol, auth, track, rel, nclients, split, events, timeout_ms }
     }
 
     pub fn new(seed: u64, prof: Profile) -> Self {
@@ -387,7 +403,7 @@ impl Sim {
             .map(|i| {
                 let mm = mismatch_client == Some(i);
                 Cl {
-                    app: mk_app(&cfg, if mm { Role::ClientMismatch } else { Role::Client }),
+                    app: mk_app(&cfg, if mm { Role::ClientMismatch((seed % 5) as u8) } else { Role::Client }),
                     mismatch: mm,
                     ent: None,
                     authorized: false,
@@ -413,6 +429,8 @@ impl Sim {
                     stamps: default(),
                     pending_disconnect: false,
                     first_update_checked: false,
+                    joined_late: false,
+                    delivered_reqs: default(),
                 }
             })
             .collect();
@@ -429,6 +447,7 @@ impl Sim {
             c_base,
             ents: vec![],
             vis_rec: default(),
+            ever_explicit: default(),
             dead_hidden: default(),
             secrets: default(),
             unmarked_once: default(),
@@ -505,6 +524,9 @@ impl Sim {
         c.hold_upd = false;
         c.pending_disconnect = false;
         c.first_update_checked = false;
+        c.joined_late = false;
+        c.delivered_reqs.clear();
+        self.ever_explicit.retain(|(ci, _)| *ci != i);
         self.vis_rec.retain(|(ci, _), _| *ci != i);
         self.dead_hidden.retain(|(ci, _)| *ci != i);
         // events of the ended session may be lost
@@ -589,6 +611,7 @@ impl Sim {
             }
         }
         self.vis_rec.clear();
+        self.ever_explicit.clear();
         self.dead_hidden.clear();
         self.pending_s.clear();
         // events buffered on the server are dropped by the stop
@@ -624,10 +647,15 @@ impl Sim {
     }
 
     pub fn refresh_auth(&mut self) {
+        let populated = !self.alive_marked().is_empty();
         for c in &mut self.clients {
-            c.authorized = c
+            let now = c
                 .ent
                 .is_some_and(|e| self.server.world().get_entity(e).is_ok_and(|w| w.contains::<AuthorizedClient>()));
+            if now && !c.authorized && populated {
+                c.joined_late = true;
+            }
+            c.authorized = now;
         }
     }
 
@@ -636,6 +664,9 @@ impl Sim {
             if !self.clients[ci].authorized && !self.clients[ci].mismatch {
                 self.server.world_mut().entity_mut(e).insert(AuthorizedClient);
                 self.clients[ci].authorized = true;
+                if !self.alive_marked().is_empty() {
+                    self.clients[ci].joined_late = true;
+                }
                 self.note(format!("authorize client{ci}"));
             }
         }
@@ -784,6 +815,7 @@ impl Sim {
         if ch == 1 {
             if let Some(mm) = wire::mutate_msg(&m, self.cfg.track) {
                 *self.clients[ci].delivered_per_tick.entry(mm.tick).or_default() += 1;
+                self.clients[ci].delivered_reqs.entry(mm.tick).or_default().push(mm.update_tick);
                 let u = self.clients[ci].last_update_tick;
                 if mm.update_tick > u {
                     self.obs.inc("mutate_delivered_before_its_update");
@@ -797,11 +829,13 @@ impl Sim {
     fn deliver_c2s(&mut self, ci: usize, ch: usize, m: Bytes) {
         if ch == 0 {
             let frame_no = self.frame_no;
+            let timeout_frames = (self.cfg.timeout_ms / FRAME_MS) as usize;
             let c = &mut self.clients[ci];
             for idx in wire::acks(&m) {
                 if let Some((_, f, ents)) = c.inflight.remove(&idx) {
                     for e in ents {
-                        if frame_no - f < 15 {
+                        // the server keeps an in-flight entry for at least `mutations_timeout`
+                        if frame_no - f + 5 < timeout_frames {
                             let cur = c.acked_frame.entry(e).or_insert(0);
                             if f > *cur {
                                 *cur = f;
@@ -989,9 +1023,10 @@ impl Sim {
                 200
             };
             let target = m.saturating_sub(14) + self.rng.below(12);
-            match self.rng.below(3) {
+            match self.rng.below(4) {
                 0 => target,
                 1 => target / 2,
+                2 => target * 3 / 5,
                 _ => target.saturating_sub(self.rng.below(40)),
             }
         } else {
@@ -1070,6 +1105,28 @@ impl Sim {
             k = 9;
         } else if self.prof.struct_bias > 0 && self.rng.below(8) < self.prof.struct_bias {
             k = [0, 2, 3, 4, 4, 3, 15, 16][self.rng.below(8)];
+        } else if self.cfg.rel && self.prof.rel_bias > 0 && self.rng.below(8) < self.prof.rel_bias {
+            k = [13, 21, 13, 21, 14, 22, 23, 23][self.rng.below(8)];
+        }
+        if k == 23 {
+            // marker and relationship inserted in ONE bundle (both graph observers fire)
+            if let Some(p) = pick.filter(|_| self.cfg.rel) {
+                let v = self.rng.below(100000) as u32;
+                let id = if self.rng.below(2) == 0 {
+                    self.server.world_mut().spawn((Replicated, Va(v), ChildOf(p))).id()
+                } else {
+                    self.server.world_mut().spawn((Replicated, Va(v), Follows(p))).id()
+                };
+                self.ents.push(id);
+                if self.rng.below(2) == 0 {
+                    let b = self.blob_val();
+                    let mut em = self.server.world_mut().entity_mut(id);
+                    insert_kind(&mut em, K_BLOB, b);
+                }
+                self.note(format!("spawn {id} marked=true with relation to {p} in one bundle"));
+                self.obs.inc("op_spawn_related_bundle");
+            }
+            return;
         }
         if alive.len() > 20 && k < 2 {
             k = 2;
@@ -1200,6 +1257,7 @@ impl Sim {
                         let val = self.rng.below(2) == 0;
                         self.server.world_mut().get_mut::<ClientVisibility>(ce).unwrap().set_visibility(e, val);
                         self.vis_rec.insert((ci, e), val);
+                        self.ever_explicit.insert((ci, e));
                         self.note(format!("set_vis client{ci} {e} {val}"));
                         self.obs.inc("op_set_visibility");
                     }
@@ -1292,6 +1350,7 @@ impl Sim {
             // R5: the owner sees the entity from the tick it is mapped in
             self.server.world_mut().get_mut::<ClientVisibility>(ce).unwrap().set_visibility(se, true);
             self.vis_rec.insert((ci, se), true);
+            self.ever_explicit.insert((ci, se));
         }
         // sometimes the client despawns its entity before the mapping arrives
         let kill = self.rng.below(5) == 0;
@@ -1438,7 +1497,7 @@ impl Sim {
                 self.flush_client(ci, false, true);
             }
             self.service_disconnect_requests();
-            if !self.errs.is_empty() {
+            if self.errs.len() > 12 {
                 return;
             }
         }
